@@ -52,9 +52,16 @@ func drawRender(t *rapid.T, sink string, maxN, maxCells3, maxCells2 int) fc.Case
 		}
 		// (rapid's SampledFrom favours the front of the list: the multi-batch sizes come first)
 		special := []int{1000, 3*T + 7, 2*T + 1, T + 1, 2 * T, 5000, 2*T - 1, T, T - 1, 83, 82, 81, 80, 2, 1, 0}
-		if rapid.IntRange(0, 2).Draw(t, "n.kind") == 0 {
+		switch rapid.IntRange(0, 7).Draw(t, "n.kind") {
+		case 0, 1, 2:
 			c.N = rapid.IntRange(0, maxN).Draw(t, "n")
-		} else {
+		case 3:
+			// a long stream: dozens to hundreds of channel sends still to come after an early fault
+			// (a writer that drains only a bounded number of them strands the producer)
+			c.N = rapid.SampledFrom([]int{40 * T, 9000, 70 * T, 150 * T}).Draw(t, "n.long")
+			c.Chunk = rapid.SampledFrom([]int{5, 100, T, 0, 1}).Draw(t, "chunk")
+			return c
+		default:
 			c.N = rapid.SampledFrom(special).Draw(t, "n.special")
 		}
 		if c.N > maxN {
@@ -289,7 +296,9 @@ func TestFaultReturns(t *testing.T) {
 			labels = append(labels, "scripted:n="+nBucket(c.N), fmt.Sprintf("scripted:chunk=%d", c.Chunk))
 			if sink == "stl" && fault == "fsize" && L < S {
 				// the class in which a writer that stops reading would strand the producer
-				if L < S-50*2*256 {
+				if L < S-50*33*256 {
+					labels = append(labels, "stl:fault-with->=33-batches-left")
+				} else if L < S-50*2*256 {
 					labels = append(labels, "stl:fault-with->=2-batches-left")
 				} else if L < S-50*256 {
 					labels = append(labels, "stl:fault-with-1..2-batches-left")
@@ -651,6 +660,8 @@ func TestRegress(t *testing.T) {
 		// shrunk by rapid: first flush fails in the first of two channel batches
 		{"stl-fsize0-257", fc.Case{Sink: "stl", Renderer: "scripted", N: 257, Chunk: 1, Path: "a.stl", Fsize: 0, Fault: "fsize:0"}, 60},
 		{"stl-devfull-5000", fc.Case{Sink: "stl", Renderer: "scripted", N: 5000, Chunk: 1, Path: "/dev/full", Fsize: -1, Fault: "dev-full"}, 60},
+		{"stl-devfull-20000", fc.Case{Sink: "stl", Renderer: "scripted", N: 20000, Chunk: 1, Path: "/dev/full", Fsize: -1, Fault: "dev-full"}, 60},
+		{"stl-fsize4096-20000", fc.Case{Sink: "stl", Renderer: "scripted", N: 20000, Chunk: 100, Path: "g.stl", Fsize: 4096, Fault: "fsize:flush-boundary+-1"}, 60},
 		{"stl-fsize50-1000", fc.Case{Sink: "stl", Renderer: "scripted", N: 1000, Chunk: 1, Path: "b.stl", Fsize: 50, Fault: "fsize:<84"}, 60},
 		{"stl-fsize84-1000", fc.Case{Sink: "stl", Renderer: "scripted", N: 1000, Chunk: 1, Path: "c.stl", Fsize: 84, Fault: "fsize:84+-1"}, 60},
 		{"stl-fsize5000-1000", fc.Case{Sink: "stl", Renderer: "scripted", N: 1000, Chunk: 1, Path: "d.stl", Fsize: 5000, Fault: "fsize:uniform"}, 60},
